@@ -597,6 +597,26 @@ def hasRealPow : E → Bool
   | .lor xs => xs.attach.any fun ⟨x, _⟩ => hasRealPow x
   | _ => false
 
+mutual
+def countQuot : E → Nat
+  | .quot _ a b => 1 + countQuot a + countQuot b
+  | .sum _ xs => countQuotL xs
+  | .prod _ xs => countQuotL xs
+  | .pow _ a b => countQuot a + countQuot b
+  | .cmp _ a b => countQuot a + countQuot b
+  | .lnot a => countQuot a
+  | .land xs => countQuotL xs
+  | .lor xs => countQuotL xs
+  | _ => 0
+def countQuotL : List E → Nat
+  | [] => 0
+  | x :: xs => countQuot x + countQuotL xs
+end
+
+/-- two or more `Quotient` nodes (with `Flatten` they can end up below one another; `distribute_quotient` then builds a
+*pymbolic* `Product` for the denominator, a class distinction `E` cannot express: outside the correspondence) -/
+def nestedQuot (e : E) : Bool := decide (2 ≤ countQuot e)
+
 /-- an integer literal of magnitude ≥ 2^53 (`div_literals` computes `int(a / b)` in binary64: exact below that) -/
 def hasBigLit : E → Bool
   | .ilit n => decide (2 ^ 53 ≤ n.natAbs)
